@@ -146,6 +146,16 @@ c at initialisation and tests that canonical name when generating: keep it
 	return
 	end
 
+	subroutine vf_getsl2(p,n)
+	dimension p(48)
+	common/bj69sl2/sl2(48)
+	n=48
+	do i=1,48
+	   p(i)=sl2(i)
+	enddo
+	return
+	end
+
 	subroutine vf_getplog69(p,n)
 	dimension p(48)
 	common/bj69plog/plog69(48)
